@@ -1797,6 +1797,25 @@ impl Writer {
   }
 }
 
+// Verification hook: read-only view of a reader proxy.
+#[cfg(rustdds_verif)]
+impl Writer {
+  /// (all_acked_before, unsent_changes, frags_requested)
+  #[allow(clippy::type_complexity)]
+  pub(crate) fn verif_reader_proxy_digest(
+    &self,
+    reader: GUID,
+  ) -> Option<(i64, Vec<i64>, Vec<(i64, Vec<bool>)>)> {
+    self.readers.get(&reader).map(|rp| {
+      (
+        i64::from(rp.all_acked_before),
+        rp.unsent_changes_iter().map(i64::from).collect(),
+        rp.verif_frags_requested(),
+      )
+    })
+  }
+}
+
 impl RTPSEntity for Writer {
   fn guid(&self) -> GUID {
     self.my_guid
